@@ -96,8 +96,37 @@ SliceOK(in, o) ==
     /\ o.inafter = in.bm                                 \* the input is left unchanged
 TraceSlice == IsEvent("slice") /\ SliceOK(Ev.in, Ev.out)
 
+\* ---- beyond the listed properties: the unexported select family (through the verif hooks) and Fmt
+SelSingleOK(in, o) ==
+    /\ InOK(in.bm)
+    /\ Len(o.res) = Len(in.is)
+    /\ \A j \in DOMAIN in.is : o.res[j] = Select1D(in.bm.ones, in.bm.nw, in.is[j])
+TraceSelSingle == IsEvent("selsingle") /\ SelSingleOK(Ev.in, Ev.out)
+
+\* one word: indexSelectU64 = per byte k the number of 1-bits in the low 8(k+1) bits, with bit 7 of the
+\* byte set; selectU64Indexed(w, index, i) = the position of the i-th 1-bit of w
+SelU64OK(in, o) ==
+    LET s == ToSet(in.w) IN
+    /\ \A k \in 0..7 : ToSet(o.index[k + 1]) = {b \in 0..6 : (Cardinality({x \in s : x < 8 * (k + 1)}) \div (2 ^ b)) % 2 = 1} \cup {7}
+    /\ Len(o.sel) = Cardinality(s)
+    /\ \A i \in 1..Len(o.sel) : o.sel[i] = in.w[i]
+TraceSelU64 == IsEvent("selu64") /\ SelU64OK(Ev.in, Ev.out)
+
+\* Fmt of an integer of `size` bytes: the bytes from the least significant one, each as 8 binary digits
+\* least significant first, separated by spaces; of a slice: the elements separated by commas
+FmtWord(ones, size) ==
+    LET digit(p) == IF p \in ones THEN 49 ELSE 48
+        RECURSIVE B(_)
+        B(k) == IF k = size THEN <<>> ELSE (IF k > 0 THEN <<32>> ELSE <<>>) \o [b \in 1..8 |-> digit(8 * k + b - 1)] \o B(k + 1)
+    IN B(0)
+RECURSIVE FmtList(_, _)
+FmtList(ws, size) == IF Len(ws) = 0 THEN <<>>
+                     ELSE FmtWord(ToSet(ws[1]), size) \o (IF Len(ws) > 1 THEN <<44>> \o FmtList(Tail(ws), size) ELSE <<>>)
+FmtOK(in, o) == o.s = (IF in.slice THEN FmtList(in.ws, in.size) ELSE FmtWord(ToSet(in.ws[1]), in.size))
+TraceFmt == IsEvent("fmt") /\ FmtOK(Ev.in, Ev.out)
+
 TraceInit == l = 1
 TraceNext == TraceMasks \/ TraceRank \/ TraceSelect \/ TraceScan \/ TraceOf \/ TraceOfMany
-             \/ TraceToArray \/ TraceJoin \/ TraceSlice
+             \/ TraceToArray \/ TraceJoin \/ TraceSlice \/ TraceSelSingle \/ TraceSelU64 \/ TraceFmt
 TraceSpec == TraceInit /\ [][TraceNext]_l
 ============================================================================
